@@ -1409,7 +1409,9 @@ int _vnadata_load_touchstone(vnadata_internal_t *vdip, FILE *fp,
      */
     if (version == 1 && tps.tps_ports == -1 && number_of_frequencies == -1
 	    && two_port_order == -1) {
-	rc = load_touchstone1(&tps);
+	if (load_touchstone1(&tps) == -1) {
+	    goto out;
+	}
 	goto expect_eof;
     }
 
